@@ -306,7 +306,11 @@ func c13Timeout(id string, class int, payloadKind int, seed int64) core.Scenario
 				if strings.HasPrefix(r, "panic") {
 					c.Violationf("late-reply:panics", rep, "a Reply produced after the timeout panicked inside the actor's effect: %s", r)
 				} else if r == "blocked" {
-					c.Violationf("late-reply:blocks", rep, "a Reply produced after the timeout blocks the actor forever")
+					if quiet, _ := core.QuietNow(); quiet {
+						c.Violationf("late-reply:blocks", rep, "a Reply produced after the timeout blocks the actor forever")
+					} else {
+						c.Inconclusive("late Reply still in progress after 10 s in " + id)
+					}
 				}
 			case <-time.After(30 * time.Second):
 				c.Inconclusive("the actor never reported the outcome of its late Reply in " + id)
@@ -389,7 +393,11 @@ func c13BusyActor(id string, capacity int, seed int64) core.Scenario {
 		select {
 		case r = <-out:
 		case <-time.After(30 * time.Second):
-			c.Violationf("busy-actor:asker-stuck", rep, "AskOnceWithTimeout(3ms) towards a busy actor never returned")
+			if quiet, _ := core.QuietNow(); quiet {
+				c.Violationf("busy-actor:asker-stuck", rep, "AskOnceWithTimeout(3ms) towards a busy actor never returned")
+			} else {
+				c.Inconclusive("busy-actor asker still in progress after 30 s")
+			}
 			return
 		}
 		if !((r.err == nil && r.v == "answer") || (r.err == fpgo.ErrActorAskTimeout && r.v == "")) {
@@ -401,7 +409,11 @@ func c13BusyActor(id string, capacity int, seed int64) core.Scenario {
 			if strings.HasPrefix(rr, "panic") {
 				c.Violationf("late-reply:panics", rep, "the reply to a request that had been queued behind a busy actor panicked: %s", rr)
 			} else if rr == "blocked" {
-				c.Violationf("late-reply:blocks", rep, "the reply to a request whose asker timed out while it was queued behind a busy actor blocks the actor forever (asker saw (%q, %v))", r.v, r.err)
+				if quiet, _ := core.QuietNow(); quiet {
+					c.Violationf("late-reply:blocks", rep, "the reply to a request whose asker timed out while it was queued behind a busy actor blocks the actor forever (asker saw (%q, %v))", r.v, r.err)
+				} else {
+					c.Inconclusive("reply to a stale request still in progress after 10 s in " + id)
+				}
 			}
 		case <-time.After(30 * time.Second):
 			c.Inconclusive("no reply outcome in " + id)
